@@ -27,6 +27,7 @@ TRUSTED = [
     "Coq 8.16.1 kernel; vm_compute for the examples/witnesses in proofs and for the per-configuration exploration of the model in the case files; no native_compute",
     "hand model models/Portfolio.v of pysmt/solvers/portfolio.py (parent _solve / get_model / get_value / _close_existing, child _run_solver, FIFO queue, the single shared control pipe), tied by correspondence (this run's counts below)",
     "the exploration function `explore` of models/Portfolio.v is not proved complete; every outcome it reports is re-validated in the case file by running its witness schedule through `run` (so reported outcomes are genuine model outcomes); an incomplete exploration could only make the check stricter",
+    "models/TrackSolver.v (the IncrementalTrackingSolver bookkeeping model of C16, reused for Portfolio's assertion stack: Portfolio decorates _add_assertion/_push/_pop/_solve with clear_pending_pop like the modelled subclass), tied to Portfolio by comparing _assertion_stack/_backtrack_points/pending_pop after every command of each history",
     "harness member solvers (brute-force Bool/BV2 solvers with configurable delay and failure mode) and the scenario worker in harness/c19.py; the brute-force oracle on the scenario's JSON formulas",
     "CPython multiprocessing (fork start method), pipes, signals: outside the model",
 ]
@@ -38,6 +39,7 @@ ASSUMPTIONS = [
     "the liveness poll is modelled as one atomic event (queue empty and no member process alive); the implementation evaluates is_alive() BEFORE the timed get(), and a process that is no longer alive has flushed its queue message, so the two observations together imply the atomic condition",
     "one model run = one _solve round plus the queries of that round; rounds of a repeated solve use fresh channels and are modelled independently (the stale _ext_solver kept across a raising solve is not modelled; get_model after an unsat or raising solve is API misuse and not exercised)",
     "exit_on_exception=True makes the first exception win by design: failures_ignored is stated for exit_on_exception=False, and an error from a member that really raised is accepted when the option is on",
+    "command histories are legal (never pop more levels than are open), use no reset_assertions (Portfolio._reset_assertions is not decorated, unlike the TrackSolver model) and no non-literal assumptions; Portfolio.solve ignores its assumptions (known finding solve-ignores-assumptions), so the model commands for solve are SSolve None",
     "members agree on the verdict (hypothesis of verdict_agreed); a member that answers wrongly is outside the property",
     "Queue.put is modelled as atomic with the child's move to the control loop (the feeder thread's delay only postpones a message that no longer matters once a winner exists)",
     "an exception object that cannot be unpickled in the parent (constructor with required arguments) is not modelled and not exercised",
@@ -45,7 +47,11 @@ ASSUMPTIONS = [
 
 RULE = ("scenarios: every assignment of {answer, raise|unknown, silent exit} to 2 and 3 members x exit_on_exception, sampled 4-member "
         "assignments, completion-order / near-tie timing variants of the answering members, early failures with a single answering member 0.3-0.6 s later (several liveness-poll periods), repeated solve / get_model / get_value / "
-        "push-pop cycles; distinct = distinct (round configuration, observed outcome)")
+        "push-pop cycles; command histories (2 assumption probes + 27 directed: is_sat|is_valid|is_unsat inside open levels x 5 level "
+        "shapes with pop(1..2) right after the query x with/without get_model/get_value in between, then a contradicting assertion and "
+        "solve; + 60 quick / 500 thorough random legal histories of 6-10 commands) on 2-3 member portfolios, mirrored on a reference "
+        "frame stack (verdicts by truth table, models by evaluation, `assertions` read once at the end) and compared step by step with "
+        "models/TrackSolver.v; distinct = distinct (round configuration, observed outcome)")
 
 WATCHDOG = float(os.environ.get("VERIF_C19_WATCHDOG", "12"))
 BVW = 2
@@ -81,6 +87,20 @@ def jeval(t, asg):
     if op == "bvadd":
         return (jeval(t[1], asg) + jeval(t[2], asg)) % (1 << BVW)
     raise ValueError(op)
+
+
+def jstr(t):
+    op = t[0]
+    if op in ("var", "bvvar"):
+        return t[1]
+    if op == "bvconst":
+        return "#%d" % t[1]
+    if op in ("true", "false"):
+        return op
+    if op == "not":
+        return "!%s" % jstr(t[1])
+    sym = {"and": "&", "or": "|", "iff": "<->", "bveq": "=", "bvult": "<u", "bvadd": "+"}[op]
+    return "(%s %s %s)" % (jstr(t[1]), sym, jstr(t[2]))
 
 
 def jvars(t, acc=None):
@@ -269,6 +289,9 @@ def _make_member_classes():
 # scenario worker (one process per scenario; killed by the driver's watchdog on a hang)
 # ----------------------------------------------------------------------------
 
+SOLVELIKE = ("solve", "is_sat", "is_valid", "is_unsat", "solve_assuming")
+
+
 def _emit(ev):
     sys.stdout.write(json.dumps(ev) + "\n")
     sys.stdout.flush()
@@ -298,6 +321,20 @@ def worker(sc):
     who = Symbol(WHO, BVType(8))
     seen_children = []
     last_sat = False
+    ftab = {}                     # FNode -> index (hash-consing makes equal formulas one object)
+
+    def fidx(f):
+        return ftab.setdefault(f, len(ftab))
+
+    def raw():
+        # the bookkeeping attributes themselves: reading the `assertions` PROPERTY would clear a
+        # pending pop and so change the history
+        return [[ftab.get(a, 9999) for a in p._assertion_stack], list(p._backtrack_points), bool(p.pending_pop)]
+
+    def emit_end(ev):
+        if sc.get("raw"):
+            ev["raw"] = raw()
+        _emit(ev)
     for k, op in enumerate(sc["ops"]):
         _emit({"begin": k, "op": op[0]})
         kind = op[0]
@@ -306,21 +343,41 @@ def worker(sc):
             continue
         try:
             if kind == "add":
-                p.add_assertion(to_pysmt(op[1]))
-                _emit({"end": k})
+                f = to_pysmt(op[1])
+                i = fidx(f)
+                p.add_assertion(f)
+                emit_end({"end": k, "fidx": i})
             elif kind == "push":
-                p.push()
-                _emit({"end": k})
+                p.push(*op[1:2])
+                emit_end({"end": k})
             elif kind == "pop":
-                p.pop()
-                _emit({"end": k})
-            elif kind == "solve":
+                p.pop(*op[1:2])
+                emit_end({"end": k})
+            elif kind == "assertions":
+                emit_end({"end": k, "assertions": [ftab.get(a, 9999) for a in p.assertions],
+                          "text": [str(a) for a in p.assertions]})
+            elif kind in SOLVELIKE:
                 last_sat = False
                 try:
-                    r = p.solve()
+                    if kind == "solve":
+                        api = r = p.solve()
+                        extra = {}
+                    elif kind == "solve_assuming":   # assumption = a literal
+                        api = r = p.solve([to_pysmt(op[1])])
+                        extra = {}
+                    else:
+                        f = to_pysmt(op[1])
+                        extra = {"fidx": fidx(f)}
+                        if kind == "is_valid":
+                            extra["nidx"] = fidx(env.formula_manager.Not(f))
+                        api = getattr(p, kind)(f)
+                        r = api if kind == "is_sat" else ((not api) if isinstance(api, bool) else api)
                     last_sat = r is True
                     w = p._ext_solver.name.split(" ")[0] if p._ext_solver is not None else None
-                    _emit({"end": k, "res": r if isinstance(r, bool) else repr(r), "winner": int(w) if w is not None else None})
+                    ev = {"end": k, "res": r if isinstance(r, bool) else repr(r), "api": api if isinstance(api, bool) else repr(api),
+                          "winner": int(w) if w is not None else None}
+                    ev.update(extra)
+                    emit_end(ev)
                 except Exception as ex:
                     msg = str(ex)
                     mem = int(msg.split(":")[1].split()[0]) if msg.startswith("member:") else None
@@ -442,6 +499,7 @@ def analyse(sc, evs, hung, rc):
     problems = []
     rounds = []
     stack = [[]]
+    fidxs = {}
     cur = None
 
     def flush_round(final_ok=True):
@@ -478,15 +536,37 @@ def analyse(sc, evs, hung, rc):
             flush_round(final_ok=False)
             break
         e = ends.get(k)
+        if kind in ("add", "push", "pop", "assertions") and e is not None and "exc" in e:
+            problems.append(("command-exception", "%s raised %s" % (kind, e["exc"])))
+            flush_round(final_ok=False)
+            break
+        if kind in ("add", "push", "pop", "assertions") and e is None:
+            problems.append(("hang-in-command", "%s blocked" % kind))
+            flush_round(final_ok=False)
+            break
         if kind == "add":
             stack[-1].append(op[1])
+            fidxs[json.dumps(op[1])] = e.get("fidx")
         elif kind == "push":
-            stack.append([])
+            for _ in range(op[1] if len(op) > 1 else 1):
+                stack.append([])
         elif kind == "pop":
-            stack.pop()
-        elif kind == "solve":
+            for _ in range(op[1] if len(op) > 1 else 1):
+                stack.pop()
+        elif kind == "assertions":
+            # what the next _solve would conjoin, against the reference frames
+            ref = [a for lvl in stack for a in lvl]
+            want = [fidxs.get(json.dumps(a)) for a in ref]
+            if e.get("assertions") != want:
+                problems.append(("assertions-differ", "after the history the portfolio's assertions are %s, the live assertions of the "
+                                 "reference frame stack are %s" % (e.get("text"), [jstr(a) for a in ref])))
+        elif kind in SOLVELIKE:
             flush_round()
             assertions = [a for lvl in stack for a in lvl]
+            if kind == "is_valid":
+                assertions = assertions + [["not", op[1]]]
+            elif kind != "solve":
+                assertions = assertions + [op[1]]
             verdict = brute_sat(assertions)
             cur = {"verdict": verdict, "assertions": assertions, "script": [], "resp": [], "state": None, "op": k}
             answering = [i for i, m in enumerate(modes) if m in ANSWERING]
@@ -531,8 +611,15 @@ def analyse(sc, evs, hung, rc):
                     cur["state"] = "other"
                 elif not answering:
                     problems.append(("verdict-from-nowhere", "solve returned %s although no member answers" % e["res"]))
+                elif e["res"] != verdict and kind == "solve_assuming" and e["res"] == brute_sat(assertions[:-1]):
+                    problems.append(("solve-ignores-assumptions", "solve(assumptions=[%s]) returned %s, the verdict of the assertions %s "
+                                     "WITHOUT the assumption; with it they are %s" % (jstr(assertions[-1]), e["res"], [jstr(a) for a in assertions[:-1]],
+                                                                                    "sat" if verdict else "unsat")))
+                    cur["state"] = "other"
                 elif e["res"] != verdict:
-                    problems.append(("wrong-verdict", "solve returned %s, the assertions are %s" % (e["res"], "sat" if verdict else "unsat")))
+                    problems.append(("wrong-verdict", "%s returned %s, but the live assertions %s%s are %s"
+                                     % (kind, e.get("api", e["res"]), [jstr(a) for a in assertions[:len(assertions) - (kind != "solve")]],
+                                        "" if kind == "solve" else " with %s" % jstr(assertions[-1]), "sat" if verdict else "unsat")))
                 if cur["state"] == "returned" and (e["winner"] is None or modes[e["winner"]] not in ANSWERING):
                     problems.append(("survivor-did-not-answer", "the member kept for queries (%s) did not answer" % e["winner"]))
                     cur["state"] = "other"
@@ -541,6 +628,9 @@ def analyse(sc, evs, hung, rc):
             if cur is None or cur["state"] != "returned":
                 k += 1
                 continue          # queries after a failed solve are not made (the generator does not emit them)
+            if e is not None and e.get("skipped"):
+                k += 1
+                continue          # the worker does not query after an unsat / failed solve
             cur["script"].append("QModel" if kind == "get_model" else "QValue")
             if e is None:
                 cur["state"] = "hang_query"
@@ -592,7 +682,7 @@ def analyse(sc, evs, hung, rc):
 LATENCY_KEY = "shared-ctrl-pipe:signalled-loser-takes-query"
 LATENCY_PROBLEMS = ("hang-in-query", "query-exception", "values-do-not-satisfy", "model-does-not-satisfy", "hang-in-exit",
                     "exit-exception", "solve-exception", "error-not-from-member")
-KNOWN_KEYS = ("all-members-raise:blocks", "all-members-fail-some-silently:blocks", LATENCY_KEY)
+KNOWN_KEYS = ("all-members-raise:blocks", "all-members-fail-some-silently:blocks", LATENCY_KEY, "solve-ignores-assumptions")
 # property-level problems; "leak" is checked against the model's expectation (every member is
 # signalled or gone once the round is closed) and is reported through the correspondence path
 CORR_ONLY = ("leak",)
@@ -688,6 +778,120 @@ def make_ops(rnd, shape):
     return ops
 
 
+V = lambda n: ["var", n]
+H_POOL = [V("p"), ["not", V("p")], V("q"), ["not", V("q")], ["or", V("p"), V("q")], ["or", ["not", V("p")], ["not", V("q")]],
+          ["iff", V("p"), V("q")], ["and", V("p"), ["not", V("q")]], ["bvult", ["bvvar", "x"], ["bvvar", "y"]],
+          ["not", ["bvult", ["bvvar", "x"], ["bvvar", "y"]]], ["bveq", ["bvvar", "x"], ["bvconst", 3]]]
+ONESHOT = ("is_sat", "is_valid", "is_unsat")
+
+
+class _Ref(object):
+    """Reference frame stack used by the generators (to emit queries only where a model exists)."""
+
+    def __init__(self):
+        self.frames = [[]]
+        self.ops = []
+        self.model = False
+
+    def live(self):
+        return [a for f in self.frames for a in f]
+
+    def do(self, op):
+        self.ops.append(op)
+        k = op[0]
+        if k == "add":
+            self.frames[-1].append(op[1])
+        elif k == "push":
+            self.frames.extend([] for _ in range(op[1]))
+        elif k == "pop":
+            del self.frames[-op[1]:]
+        elif k == "solve":
+            self.model = brute_sat(self.live())
+        elif k == "solve_assuming":
+            self.model = False
+        elif k == "is_valid":
+            self.model = brute_sat(self.live() + [["not", op[1]]])
+        elif k in ("is_sat", "is_unsat"):
+            self.model = brute_sat(self.live() + [op[1]])
+        if k in ("add", "push", "pop"):
+            self.model = False
+
+    def queries(self, which, extra=()):
+        if not self.model or not which:
+            return
+        if which == "m":
+            self.ops.append(["get_model"])
+        else:
+            vs = sorted(set().union(*[jvars(a) for a in self.live() + list(extra)] or [set()]))
+            for (nme, isbv) in vs[:2]:
+                self.ops.append(["get_value", nme, isbv])
+
+
+def directed_histories():
+    """push; assert inside; one-shot query; [queries]; pop(n) as the first stack command; an
+    assertion contradicting the popped one; solve.  3 query kinds x n in 1..2 x level shapes x
+    with/without model queries in between."""
+    p, q = V("p"), V("q")
+    out = []
+    for kind in ONESHOT:
+        for shape in ("push1-pop1", "push2-pop2", "push1-push1-pop2", "push2-pop1-pop1", "push1-push1-pop1"):
+            for between in ("", "m", "v"):
+                if between and shape not in ("push1-pop1", "push2-pop2"):
+                    continue
+                r = _Ref()
+                r.do(["add", ["or", p, q]])
+                arg = q if kind != "is_valid" else ["not", q]     # q is satisfiable with !p: a model exists
+                if shape == "push1-pop1":
+                    r.do(["push", 1]); r.do(["add", ["not", p]]); r.do([kind, arg])
+                    r.queries(between, [arg]); r.do(["pop", 1])
+                elif shape == "push2-pop2":
+                    r.do(["push", 2]); r.do(["add", ["not", p]]); r.do([kind, arg])
+                    r.queries(between, [arg]); r.do(["pop", 2])
+                elif shape == "push1-push1-pop2":
+                    r.do(["push", 1]); r.do(["add", ["not", p]]); r.do(["push", 1]); r.do(["add", q]); r.do([kind, arg]); r.do(["pop", 2])
+                elif shape == "push2-pop1-pop1":
+                    r.do(["push", 2]); r.do(["add", ["not", p]]); r.do([kind, arg]); r.do(["pop", 1]); r.do(["pop", 1])
+                else:
+                    r.do(["push", 1]); r.do(["add", ["not", q]]); r.do(["push", 1]); r.do(["add", ["not", p]]); r.do([kind, ["not", arg] if kind == "is_sat" else arg])
+                    r.do(["pop", 1])
+                r.do(["add", p])
+                r.do(["solve"])
+                r.queries("m")
+                r.ops.append(["assertions"])
+                out.append(r.ops)
+    return out
+
+
+def random_history(rnd):
+    """6-10 commands over push(n) / pop(n) / add / is_sat / is_valid / is_unsat / solve /
+    get_model / get_value, always legal (never pops more levels than are open)."""
+    r = _Ref()
+    target = rnd.randrange(6, 11)
+    r.do(["add", rnd.choice(H_POOL)])
+    while len(r.ops) < target:
+        depth = len(r.frames) - 1
+        last = r.ops[-1][0]
+        c = rnd.random()
+        if last in ONESHOT + ("solve", "get_model", "get_value") and depth and c < 0.45:
+            r.do(["pop", rnd.randrange(1, min(depth, 2) + 1)])     # pop right after a query
+        elif c < 0.2:
+            r.do(["push", rnd.choice([1, 1, 2])])
+        elif c < 0.45:
+            r.do(["add", rnd.choice(H_POOL)])
+        elif c < 0.75:
+            r.do([rnd.choice(ONESHOT), rnd.choice(H_POOL)])
+        elif c < 0.85:
+            r.do(["solve"])
+        elif c < 0.95 and r.model:
+            r.queries(rnd.choice("mv"), [r.ops[-1][1]] if last in ONESHOT else [])
+        elif depth:
+            r.do(["pop", rnd.randrange(1, min(depth, 2) + 1)])
+    r.do(["solve"])
+    r.queries("m")
+    r.ops.append(["assertions"])
+    return r.ops
+
+
 TIMINGS = {
     2: [[0, 0], [0, 30], [30, 0], [0, 2], [2, 0], [10, 10]],
     3: [[0, 0, 0], [0, 20, 40], [40, 20, 0], [10, 10, 40], [0, 1, 2], [30, 0, 1]],
@@ -765,6 +969,18 @@ def scenarios(rnd, tier):
             sc(modes, [slow[k % 3]] + [0] * (n - 1), True, "values" if k % 2 else "unsat", "slow-answer")
     # one member still solving, one answering late, the others gone: cycle of solves
     sc(["exit", "answer", "raise"], [0, 350, 0], False, "cycle", "slow-answer")
+    # 8. command histories (the "repeated solve / get_model / push-pop cycles" part): one-shot
+    #    queries inside open levels, pop(n) right after them, verdict-sensitive follow-ups; the
+    #    portfolio's assertions are read once, at the END (reading them earlier clears a pending pop)
+    assume = [[["add", ["or", V("p"), V("q")]], ["solve_assuming", ["not", V("p")]], ["solve"], ["get_model"], ["assertions"]],
+              [["add", V("p")], ["push", 1], ["add", V("q")], ["solve_assuming", ["not", V("p")]], ["pop", 1], ["solve"], ["assertions"]]]
+    for ops in assume + directed_histories() + [random_history(rnd) for _ in range(60 if tier == "quick" else 500)]:
+        n = rnd.choice([2, 2, 3])
+        modes = ["answer"] * n
+        if rnd.random() < 0.25:
+            modes[rnd.randrange(n)] = rnd.choice(["raise", "unknown", "exit"])
+        out.append({"members": [{"mode": m, "delay_ms": rnd.choice([0, 0, 2, 5, 15])} for m in modes], "eoe": False,
+                    "ops": ops, "tag": "history", "raw": True})
     # 5. many queries against members with different models (exposes a query served by anybody
     #    but the survivor)
     for n in (2, 3, 4):
@@ -779,6 +995,75 @@ def scenarios(rnd, tier):
 
 HDR = ("From Coq Require Import List Bool.\nFrom PySMT.core Require Import CaseUtil.\n"
        "From PySMT.models Require Import Portfolio.\nImport ListNotations.\n")
+
+
+HIST_HDR = ("""From Coq Require Import List Arith Bool.
+From PySMT.core Require Import CaseUtil.
+From PySMT.models Require Import AssertStack StackPrims TrackSolver.
+Import ListNotations.
+Fixpoint leqb {A} (e : A -> A -> bool) (a b : list A) : bool :=
+  match a, b with [], [] => true | x :: a', y :: b' => e x y && leqb e a' b' | _, _ => false end.
+Definition tst_eqb (a b : tst nat) : bool :=
+  leqb Nat.eqb (astk a) (astk b) && leqb Nat.eqb (bpts a) (bpts b) && Bool.eqb (pending a) (pending b).
+Definition res_eqb (a b : result (tst nat)) : bool :=
+  match a, b with Ok x, Ok y => tst_eqb x y | _, _ => false end.
+(* mgr.Not on formula indexes: the table recorded from the implementation's hash-consing *)
+Fixpoint lookup (t : list (nat * nat)) (n : nat) : nat :=
+  match t with [] => n + 1000 | (a, b) :: r => if Nat.eqb a n then b else lookup r n end.
+""")
+HIST_TAIL = ("""Definition ok (c : list (nat * nat) * list (scmd nat) * list (result (tst nat))) : bool :=
+  let '(negs, cs, e) := c in leqb res_eqb (t_trace (lookup negs) t_init cs) e.
+Eval vm_compute in mismatches ok cases.
+""")
+
+
+def history_case(sc, evs):
+    """(Coq row, key) for a completed history: the TrackSolver commands and the raw bookkeeping
+    state (_assertion_stack as formula indexes, _backtrack_points, pending_pop) the implementation
+    had after each of them; None if the history did not run to its end."""
+    ends = {e["end"]: e for e in evs if "end" in e}
+    cs, tr, negs = [], [], []
+    for k, op in enumerate(sc["ops"]):
+        e = ends.get(k)
+        kind = op[0]
+        if kind in ("get_model", "get_value"):
+            continue
+        if e is None or "raw" not in e or "exc" in e or "err" in e:
+            return None
+        if kind == "add":
+            cs.append("SAdd %d" % e["fidx"])
+        elif kind == "push":
+            cs.append("SPush %d" % (op[1] if len(op) > 1 else 1))
+        elif kind == "pop":
+            cs.append("SPop %d" % (op[1] if len(op) > 1 else 1))
+        elif kind in ("solve", "solve_assuming"):
+            cs.append("SSolve None")      # Portfolio._solve takes no level for assumptions
+        elif kind == "is_sat":
+            cs.append("SIsSat %d" % e["fidx"])
+        elif kind == "is_unsat":
+            cs.append("SIsUnsat %d" % e["fidx"])
+        elif kind == "is_valid":
+            cs.append("SIsValid %d" % e["fidx"])
+            negs.append("(%d, %d)" % (e["fidx"], e["nidx"]))
+        elif kind == "assertions":
+            cs.append("SObserve")
+        else:
+            return None
+        a, b, pnd = e["raw"]
+        tr.append("Ok (mkT %s %s %s)" % (lib.coq_list([str(x) for x in a]), lib.coq_list([str(x) for x in b]), lib.coq_bool(pnd)))
+    return "(%s, %s, %s)" % (lib.coq_list(negs), lib.coq_list(cs), lib.coq_list(tr))
+
+
+def write_history_files(chk, rows, shard=100):
+    files, meta = [], {}
+    for k in range(0, len(rows), shard):
+        body = HIST_HDR + "Definition cases : list (list (nat * nat) * list (scmd nat) * list (result (tst nat))) := [\n %s ].\n" % ";\n ".join(r for r, _ in rows[k:k + shard]) + HIST_TAIL
+        p = os.path.join(chk.dir, "cases_hist_%d.v" % (k // shard))
+        with open(p, "w") as f:
+            f.write(body)
+        files.append(p)
+        meta[p] = [sc for _, sc in rows[k:k + shard]]
+    return files, meta
 
 
 def cfg_lit(cfg):
@@ -831,7 +1116,7 @@ def run_all(scs, jobs):
 
 
 def strip(sc):
-    return {k: sc[k] for k in ("members", "eoe", "ops")}
+    return {k: sc[k] for k in ("members", "eoe", "ops", "raw") if k in sc}
 
 
 def report_problems(chk, sc, evs, hung, problems, rounds):
@@ -871,8 +1156,13 @@ def run(tier):
     hangs = 0
     leaks = []
     tags = {}
+    hist_rows = []
     for sc, (evs, hung, rc) in zip(scs, results):
         rounds, problems = analyse(sc, evs, hung, rc)
+        if sc.get("raw"):
+            row = history_case(sc, evs)
+            if row is not None:
+                hist_rows.append((row, sc))
         hangs += 1 if hung else 0
         tags[sc["tag"].split(":")[0]] = tags.get(sc["tag"].split(":")[0], 0) + 1
         nviol += report_problems(chk, sc, evs, hung, problems, rounds)
@@ -910,6 +1200,19 @@ def run(tier):
                                  "scenarios": [strip(s) for s in src[:2]]})
     else:
         corr_bad.append({"error": "models/Portfolio.v does not compile"})
+    # command histories against the bookkeeping model shared with C16 (models/TrackSolver.v)
+    if os.path.exists(os.path.join(lib.COQ, "models", "TrackSolver.vo")):
+        hfiles, hmeta = write_history_files(chk, hist_rows)
+        for p, (rc, out) in lib.run_case_files(hfiles).items():
+            mm = lib.parse_nat_list(out) if rc == 0 else None
+            if mm is None:
+                corr_bad.append({"file": p, "error": out[-500:]})
+                continue
+            for i in mm[:3]:
+                corr_bad.append({"history": strip(hmeta[p][i]), "what": "bookkeeping state (_assertion_stack, _backtrack_points, pending_pop) after some command differs from models/TrackSolver.v"})
+    else:
+        corr_bad.append({"error": "models/TrackSolver.v does not compile"})
+    chk.cov["histories"] = {"run": sum(1 for s in scs if s.get("raw")), "compared_with_TrackSolver_model": len(hist_rows)}
     for l in leaks[:3]:
         corr_bad.append({"leak": l})
     chk.cov["correspondence"] = {"scenarios": len(scs), "by_kind": tags, "rounds": chk.cov["evaluations"],
